@@ -77,6 +77,28 @@ CHECKS = {
             'and port, character-prefix truncation only when needed, disabled iff the identity alone does not fit; datagram sequences from a catalogue '
             'chosen by selectors: answers iff discovery request, keeps answering. Symbolic strings: CrossHair part', '5/C19'),
 }
+PER_NOTE = {
+    'C01': 'IEEE rounding of the tolerance band is not modelled (reals); container lengths > 3, depth > 3 outside; symbolic strings only via CrossHair (inconclusive unless confirmed)',
+    'C02': 'text form of float leaves and JSON text only on solver-chosen witness models; scaled grid index box +-8 (symbolic part), IEEE kernels by the QF_FP lemmas of C03',
+    'C03': 'QF_FP lemmas bounded to a 9/13 bit grid index and 7 catalogue scales, a timed-out lemma is inconclusive; units/fmtstr beyond catalogue literals not covered',
+    'C04': 'fixed catalogue module class instead of generated classes; sequential requests only (dispatcher lock not analysed)',
+    'C05': 'sequential histories only: concurrent announcers / atomicity of the update lock are NOT claimed',
+    'C06': 'catalogue node + four shipped configurations instead of generated configurations',
+    'C07': 'catalogue of request lines (selector) instead of a free byte grammar; asynchronous messages vs. send lock NOT claimed',
+    'C08': 'SEQUENTIAL histories only; the activation-races-update half of the property (thread schedules) is NOT claimed',
+    'C09': 'quantifies over values inside a fixed catalogue of class hierarchies, not over programs',
+    'C10': 'config dicts built with the real DSL objects; config text files and search path outside',
+    'C11': 'one loop iteration = one atomic step; pre-emption inside an iteration and real thread shutdown NOT claimed',
+    'C12': 'in-process composition (no TCP, no threads); messages enter through a stub of decode_msg',
+    'C13': 'virtual time, horizon K wake-ups, 1-2 modules; real-time behaviour and long horizons outside',
+    'C14': 'call budget 3/4 symbolic state calls, maxloops 3; pre-emption inside cycle() NOT claimed',
+    'C15': 'out-degree <= 1 attachment graphs on <= 3/4 modules; fake threads (eager or deferred), no real threads',
+    'C16': 'sequential kernels; pairing under concurrent callers and real sockets/serial lines NOT claimed',
+    'C17': 'in-memory file system model (atomic rename, ordered durable writes); fsync level effects outside',
+    'C18': 'catalogue layouts / label sets; two open known findings (see known_findings.json)',
+    'C19': 'selectors over padding length window and character catalogue; fake socket',
+    'C20': 'routing: 2 connections x 2 modules; rotation: <= 6 dated files, foreign files outside',
+}
 NOT_YET = 'check not built yet in this round (planned per DESIGN.md section 5); not claimed until its harness runs clean'
 NOT_APPLICABLE = {}
 
@@ -93,7 +115,7 @@ def main():
             'replay_cmd_template': f'bin/check {pid} --replay {{path}}',
             'engine': 'symx',
             'level_claimed': {'category': level, 'text': text, 'design_ref': 'DESIGN.md ' + ref},
-            'level_note': NOTE,
+            'level_note': PER_NOTE.get(pid, '') + '. ' + NOTE,
             'technique': SYMX,
         })
     na = []
@@ -113,6 +135,10 @@ def main():
             'add_only': True,
         },
         'engines': [
+            {'name': 'crosshair', 'path': 'engine/xh.py', 'serves_properties': ['C01', 'C04', 'C07', 'C08', 'C12', 'C20'],
+             'kind_free_text': 'CrossHair 0.0.110 (symbolic execution with z3) for symbolic string arguments, one process per condition, reachability twin, counterexamples replayed'},
+            {'name': 'fp-lemmas', 'path': 'engine/fp.py', 'serves_properties': ['C03', 'C02'],
+             'kind_free_text': 'scaled-integer kernels translated from the AST into z3 QF_FP terms, bounded bit-vector index, sat models replayed on the real code'},
             {'name': 'symx', 'path': 'engine/symx.py', 'serves_properties': sorted(CHECKS),
              'kind_free_text': 'own symbolic executor: operator-overloading symbolic int/real/bool over z3, DFS re-execution of the regenerated '
                                'frappy source (engine/gen.py), every model replayed on the unmodified tree (engine/runner.py)'},
